@@ -181,6 +181,8 @@ RunDefers(ds, w) == IF ds = <<>> \/ Panicked(w) THEN w ELSE RunDefers(Tail(ds), 
 \*   ifinit    if Yield(a); r.T(id) { r.E(id+1, a, b) }
 \*   rparr     for k, v := range &arr { r.E(id, k, v); Yield(v); arr[2] = 99 }     (no copy: live)
 \*   rfunc     for v := range rt.Seq3 { Yield(v) }                                 (yields 1, 2, 3)
+\*   parenyield (Yield(a))                                                          (a parenthesised yield statement)
+\*   rparrdefer for _, v := range &uarr { defer r.E(id, v, 0) }                     (defer in a loop the rewriter leaves native)
 \*   rtparam   for _, v := range ts { Yield(v) }   with ts of a type-parameter type ~[]int holding 10, 20, 30
 \* Negative controls, inside a closure nested in the generator (no yield inside; must be accepted):
 \*   clo-lbreak clo-goto clo-select clo-defer clo-rfunc clo-rparr clo-fall clo-selbrk
@@ -214,6 +216,8 @@ Desugar(s) ==
     [] s.u = "rparr"  -> <<URange("parray", id, <<[k |-> "effkv", id |-> id], UY(UVar("v")), [k |-> "mut", op |-> "aset", j |-> 2]>>)>>
     [] s.u = "rfunc"  -> <<UY(ULit(1)), UY(ULit(2)), UY(ULit(3))>>
     [] s.u = "rtparam" -> <<UY(ULit(10)), UY(ULit(20)), UY(ULit(30))>>
+    [] s.u = "parenyield" -> <<UY(UVar("a"))>>
+    [] s.u = "rparrdefer" -> <<[k |-> "deferv", id |-> id, x |-> 10], [k |-> "deferv", id |-> id, x |-> 20], [k |-> "deferv", id |-> id, x |-> 30]>>
     [] s.u = "lrange"  -> <<UIf(id, <<UY(ULit(10))>>, <<UEffX(id + 2, ULit(10))>>), UIf(id, <<UY(ULit(20))>>, <<UEffX(id + 2, ULit(20))>>)>>
     [] s.u = "clo-lrange" -> <<UIf(id, <<UEffX(id + 1, ULit(10))>>, <<UEffX(id + 2, ULit(10))>>), UIf(id, <<UEffX(id + 1, ULit(20))>>, <<UEffX(id + 2, ULit(20))>>)>>
     [] s.u = "clo-selbrk" -> <<UIf(id, <<>>, <<UEffX(id + 1, ULit(7))>>)>>
@@ -226,7 +230,7 @@ Desugar(s) ==
     [] s.u = "clo-loopvar" -> <<UEffX(id, ULit(0)), UEffX(id, ULit(1)), UEffX(id, ULit(2))>>
     [] s.u = "clo-fall"   -> <<[k |-> "switch", init |-> None, form |-> "tag", c |-> UT(id),
                                 cases |-> <<UCase("t", <<UEff(id + 1)>>, TRUE), UCase("d", <<UEff(id + 2)>>, FALSE)>>]>>
-UnsupYields(u) == u \in {"lbreak", "lcont", "goto", "select", "fallyield", "ifinit", "rparr", "rfunc", "rtparam", "lrange"}
+UnsupYields(u) == u \in {"parenyield", "lbreak", "lcont", "goto", "select", "fallyield", "ifinit", "rparr", "rfunc", "rtparam", "lrange"}
 
 \* ---------------------------------------------------------------- the interpreter
 \* Run(i, w): run coroutine i to its next yield / end / panic:  [st, w]
@@ -361,6 +365,7 @@ Run(i, w) ==
       [] s.k = "lcont"  -> LET kl == ToLabel(k1, s.lab) IN Run(i, SetK(w, i, PostFrames(Head(kl)) \o kl))   \* continue L
       [] s.k = "defer"  -> \* defer r.E(id, a, b): the arguments are evaluated now, the call runs when the function ends
                            Run(i, [SetK(w, i, k1) EXCEPT !.cos[i].defers = <<<<"e", s.id, Get(w, env, "a"), Get(w, env, "b")>>>> \o @])
+      [] s.k = "deferv" -> Run(i, [SetK(w, i, k1) EXCEPT !.cos[i].defers = <<<<"e", s.id, s.x, 0>>>> \o @])     \* defer r.E(id, x, 0)
       [] s.k = "unsup" -> Run(i, SetK(w, i, <<[t |-> "seq", ss |-> Desugar(s), env |-> env]>> \o k1))
       [] s.k \in {"continue", "$endbody"} ->
                           LET kl == ToLoop(k1)
